@@ -10,7 +10,7 @@
 #include "cal.h"
 
 #define INPUTS X(y) X(m) X(d) X(H) X(M) X(S) X(ms) X(kind) X(dur) \
-	X(y2) X(m2) X(d2) X(H2) X(M2) X(S2) X(w) X(dd) X(hh) X(mm) X(ss) X(sign) X(shape) X(uselen)
+	X(y2) X(m2) X(d2) X(H2) X(M2) X(S2) X(w) X(dd) X(hh) X(mm) X(ss) X(sign) X(shape) X(uselen) XA(nd, 5) XA(dg, 15)
 #include "sym.h"
 
 enum { K_TIMED = 0, K_ALLDAY = 1, K_ALLSEC = 2 };
@@ -75,17 +75,25 @@ void harness(void)
 # if !defined DMAX
 #  define DMAX 4000
 # endif
+# if defined DAYSONLY
+	/* whole days, built from a symbolic day count */
+	ASSUME(in.dd >= 0 && in.dd <= DMAX && in.dur == in.dd * 86400000LL);
+# elif defined SUBDAY
+	/* hours, minutes, seconds below one day, built from symbolic components */
+	ASSUME(in.hh >= 0 && in.hh < 24 && in.mm >= 0 && in.mm < 60 && in.ss >= 0 && in.ss < 60);
+	ASSUME(in.dur == ((in.hh * 60 + in.mm) * 60 + in.ss) * 1000LL);
+# else
 	ASSUME(in.dur >= 0 && in.dur <= (long long)DMAX * 86400000LL && in.dur % 1000 == 0);
+# endif
 	const size_t n = idiff_strf(buf, sizeof(buf), (echs_idiff_t){in.dur});
 	CHECK(n >= 3U && n < 40U && buf[n] == '\0', "print stays inside the buffer and is terminated");
 	const echs_idiff_t r = idiff_strp(buf, &on, n);
 	CHECK(r.d == in.dur, "printed duration parses back to the same number of milliseconds");
 	WITNESS_POINT();
 #elif defined SPELL
-	/* [+|-]P[nW][nD][T[nH][nM][nS]] with symbolic component values; shape bits
-	 * choose which components are present */
-	ASSUME(in.w >= 0 && in.w <= 520 && in.dd >= 0 && in.dd <= 3660 && in.hh >= 0 && in.hh <= 999 &&
-	       in.mm >= 0 && in.mm <= 999 && in.ss >= 0 && in.ss <= 9999);
+	/* [+|-]P[nW][nD][T[nH][nM][nS]]: every component is written with 1..3 symbolic
+	 * DIGITS (leading zeros allowed by the grammar: 1*DIGIT); shape bits choose which
+	 * components are present */
 	ASSUME(in.shape >= 1 && in.shape < 32);
 	ASSUME(in.sign >= 0 && in.sign <= 2);	/* 0 none, 1 '+', 2 '-' */
 	size_t i = 0U;
@@ -93,18 +101,34 @@ void harness(void)
 	if (in.sign == 1) buf[i++] = '+';
 	if (in.sign == 2) buf[i++] = '-';
 	buf[i++] = 'P';
-	if (in.shape & 1) { i = put_num(buf, i, (unsigned)in.w); buf[i++] = 'W'; want += in.w * 7 * 86400000LL; }
-	if (in.shape & 2) { i = put_num(buf, i, (unsigned)in.dd); buf[i++] = 'D'; want += in.dd * 86400000LL; }
+	/* component k uses digits dg[3k .. 3k+nd[k]) */
+#define COMP(k, bit, letter, unit) \
+	if (in.shape & (bit)) { \
+		long long v_ = 0; \
+		ASSUME(in.nd[k] >= 1 && in.nd[k] <= 3); \
+		for (unsigned j_ = 0; j_ < 3U; j_++) { \
+			if (j_ < (unsigned)in.nd[k]) { \
+				ASSUME(in.dg[3 * (k) + j_] >= 0 && in.dg[3 * (k) + j_] <= 9); \
+				buf[i++] = (char)('0' + in.dg[3 * (k) + j_]); \
+				v_ = v_ * 10 + in.dg[3 * (k) + j_]; \
+			} \
+		} \
+		buf[i++] = (letter); \
+		want += v_ * (unit); \
+	}
+	COMP(0, 1, 'W', 7 * 86400000LL)
+	COMP(1, 2, 'D', 86400000LL)
 	if (in.shape & 28) {
 		buf[i++] = 'T';
-		if (in.shape & 4) { i = put_num(buf, i, (unsigned)in.hh); buf[i++] = 'H'; want += in.hh * 3600000LL; }
-		if (in.shape & 8) { i = put_num(buf, i, (unsigned)in.mm); buf[i++] = 'M'; want += in.mm * 60000LL; }
-		if (in.shape & 16) { i = put_num(buf, i, (unsigned)in.ss); buf[i++] = 'S'; want += in.ss * 1000LL; }
+		COMP(2, 4, 'H', 3600000LL)
+		COMP(3, 8, 'M', 60000LL)
+		COMP(4, 16, 'S', 1000LL)
 	}
 	buf[i] = '\0';
 	if (in.sign == 2) want = -want;
 	const echs_idiff_t r = idiff_strp(buf, &on, i);
 	CHECK(r.d == want, "every legal spelling reads as the value it denotes");
+	CHECK(on == buf + i, "the whole spelling is consumed");
 	WITNESS_POINT();
 #elif defined RANGE
 	ASSUME(valid_p(in.y, in.m, in.d, in.H, in.M, in.S, 0) && valid_p(in.y2, in.m2, in.d2, in.H2, in.M2, in.S2, 0));
